@@ -17,7 +17,8 @@ RULE = (
     "and off in every case. Oracle: dense A[k,p]=exp(-2 pi i (x_p u_k + y_p v_k)) built in numpy from the closed-form "
     "pixel centres (vp/ref/dft.py): visibilities_from == A I, preload == direct, image_from == Re(A^H V) placed on the "
     "mask, <A I, V> == <I, A^H V> (dot-product test), transform_mapping_matrix(M) == A M (also through M = M+ - M- by "
-    "linearity; a mismatch on a matrix with negative entries while the linearity form holds is keyed as the dropped-entries class), the util functions called directly with the reference grid; InversionInterferometerMapping (built "
+    "linearity; a mismatch on a matrix with negative entries while the linearity form holds is keyed as the "
+    "dropped-entries class), the util functions called directly with the reference grid; InversionInterferometerMapping (built "
     "directly, through the factory on a DatasetInterface, and on an Interferometer with transformer_class=TransformerDFT; "
     "1..2 linear objects from {signed function list, rectangular mapper}, with/without regularization): "
     "operated_mapping_matrix == A M, D and F == noise-weighted real+imaginary Gram products of the transformed mapping "
@@ -28,8 +29,8 @@ RULE = (
 )
 ASSUMPTIONS = [
     "a stand-in `pylops.LinearOperator` base class (vp/stubs/pylops.py) is installed so TransformerDFT can be constructed; the DFT code never calls into it",
-    "pixel centres follow C02's closed form y=((H-1)/2-i)*sy+oy, x=(j-(W-1)/2)*sx+ox, radians = arcsec*pi/648000; the transformer's grid is compared to it at rtol 1e-12",
-    "tolerances: values 1e-9 relative to the sum of the magnitudes of the summed terms (|phase| <= ~2200 rad so cos/sin carry <= ~1e-12 absolute error); preload vs direct 1e-12 on the same scale; D and F 1e-9 of the largest sum of term magnitudes; symmetry 1e-12",
+    "pixel centres follow C02's closed form y=((H-1)/2-i)*sy+oy, x=(j-(W-1)/2)*sx+ox, radians = arcsec*pi/648000; the transformer's grid is compared to it at rtol 1e-12 plus 1e-12 of (largest |coordinate| + one pixel)",
+    "tolerances: values 1e-9 relative to the sum of the magnitudes of the summed terms (|phase| <= ~2200 rad so cos/sin carry <= ~1e-12 absolute error); preload vs direct 1e-12 on the same scale; D and F 1e-9 of the largest sum of term magnitudes; symmetry 1e-12; every tolerance scale has an absolute floor of 1e-280 so that denormal inputs (whose products underflow) are not compared relatively",
     "the mappers' own mapping_matrix is taken as input for the inversion sub-check (its content belongs to C06)",
     "TransformerNUFFT, the w-tilde interferometer path and the PyLops linear-operator inversion are out of scope (external library / stubbed code)",
 ]
@@ -37,6 +38,7 @@ TECHNIQUE = ("property-based testing (Hypothesis) against a dense closed-form Fo
              "metamorphic relations (preload == direct, adjoint dot-product test, linearity)")
 
 EPS = 1.0e-3  # no_regularization_add_to_curvature_diag_value, passed explicitly
+FLOOR = 1.0e-280  # added to every tolerance scale: denormal inputs (products underflow) are compared absolutely
 KEY_NATIVE = "preload-native-image"          # genuine defect: preload path rejects / mis-reads a native-stored image
 KEY_NONPOS = "dft-matrix-nonpositive"        # genuine defect: transformed mapping matrix drops entries <= 0 (+ /preload, /direct)
 
@@ -165,8 +167,10 @@ def _transformer(ctx, aa, uv, mask, preload):
     return t, path
 
 
-def _check_grid(ctx, t, grid_ref):
-    scale = float(np.abs(grid_ref).max(initial=0.0))
+def _check_grid(ctx, t, grid_ref, pixel_scales):
+    # absolute part: 1e-12 of (largest |coordinate| + one pixel), so a centre that is analytically ~0 (origin
+    # cancelling the half-extent, denormal origins) is compared on the scale of the frame, not of itself
+    scale = float(np.abs(grid_ref).max(initial=0.0)) + max(pixel_scales) * dft.ARCSEC_TO_RAD
     ctx.close(np.asarray(t.grid), grid_ref, "grid/in_radians", rtol=1e-12, atol=1e-12 * scale,
               what="transformer grid vs closed-form centres in radians")
 
@@ -184,15 +188,15 @@ def body_transform(case, ctx):
     ctx.label("image:has-negative" if (img < 0).any() else "image:no-negative")
     vis = np.asarray([complex(r, i) for r, i in case["vis"]], dtype=complex)
     want_vis = a @ img
-    s_img = float(np.abs(img).sum())
-    s_vis = float((np.abs(vis.real) + np.abs(vis.imag)).sum())
+    s_img = float(np.abs(img).sum()) + FLOOR
+    s_vis = float((np.abs(vis.real) + np.abs(vis.imag)).sum()) + FLOOR
     want_img = dft.adjoint_real(a, vis)
     want_img_native = dft.native_from_slim(m, want_img)
 
     got = {}
     for preload in (True, False):
         t, path = _transformer(ctx, aa, uv, mask, preload)
-        _check_grid(ctx, t, grid_ref)
+        _check_grid(ctx, t, grid_ref, case["pixel_scales"])
         # forward, slim-stored image
         image_slim = aa.Array2D(values=img.copy(), mask=mask)
         v = np.asarray(t.visibilities_from(image=image_slim))
@@ -228,7 +232,7 @@ def body_transform(case, ctx):
         # dot-product test, no reference operator involved: Re<A I, V> == <I, Re(A^H V)>
         lhs = float(np.real(np.vdot(vis, v)))
         rhs = float(np.dot(img, np.asarray(im.slim, dtype=float))) if np.asarray(im.slim).shape == img.shape else np.nan
-        ctx.close(lhs, rhs, "adjoint/dot-product", atol=1e-9 * s_img * s_vis + 1e-300,
+        ctx.close(lhs, rhs, "adjoint/dot-product", atol=1e-9 * s_img * s_vis,
                   what="Re<A I, V> vs <I, image_from(V)> (%s)" % path)
     if got["preload"].shape == got["direct"].shape:
         ctx.close(got["preload"], got["direct"], "visibilities_from/preload-vs-direct", atol=1e-12 * s_img,
@@ -279,13 +283,13 @@ def body_matrix(case, ctx):
     ctx.label("matrix:has-negative" if has_neg else "matrix:no-negative")
     ctx.nt(nt and has_neg)
     want = a @ mm
-    tol = 1e-9 * float(np.abs(mm).sum(axis=0).max(initial=0.0))
+    tol = 1e-9 * (float(np.abs(mm).sum(axis=0).max(initial=0.0)) + FLOOR)
     tu = aa.util.transformer
     phase = 2.0 * np.pi * (np.outer(grid_ref[:, 1], uv[:, 0]) + np.outer(grid_ref[:, 0], uv[:, 1]))
     got = {}
     for preload in (True, False):
         t, path = _transformer(ctx, aa, uv, mask, preload)
-        _check_grid(ctx, t, grid_ref)
+        _check_grid(ctx, t, grid_ref, case["pixel_scales"])
         got[path] = _matrix_transform_check(ctx, lambda x: t.transform_mapping_matrix(mapping_matrix=x), mm, want, tol,
                                             "transform_mapping_matrix/%s/values" % path, path,
                                             "TransformerDFT.transform_mapping_matrix, %s" % path)
@@ -354,7 +358,7 @@ def body_inversion(case, ctx):
 
     t_ref = a @ mm
     t_got = np.asarray(inv.operated_mapping_matrix)
-    tol_t = 1e-9 * float(np.abs(mm).sum(axis=0).max(initial=0.0))
+    tol_t = 1e-9 * (float(np.abs(mm).sum(axis=0).max(initial=0.0)) + FLOOR)
     transform_ok = t_got.shape == t_ref.shape and bool(np.all(np.abs(t_got - t_ref) <= tol_t))
     # same classification as in the matrix sub-check: the dataset's transformer through linearity on M+ and M-
     tr = inv.transformer
@@ -369,26 +373,26 @@ def body_inversion(case, ctx):
     # (1) the statement as written: Gram products of the transformed mapping matrix the inversion holds
     if t_got.shape == t_ref.shape:
         d1, f1, sd, sf = dft.normal_equations(t_got, vis, noise, noreg=noreg, eps=EPS)
-        ctx.close(d_got, d1, "inversion/data_vector", atol=1e-9 * sd,
+        ctx.close(d_got, d1, "inversion/data_vector", atol=1e-9 * (sd + FLOOR),
                   what="data_vector vs sum Re V Re T / sr^2 + Im V Im T / si^2 (T = inversion's transformed matrix)")
-        ctx.close(f_got, f1, "inversion/curvature_matrix", atol=1e-9 * sf,
+        ctx.close(f_got, f1, "inversion/curvature_matrix", atol=1e-9 * (sf + FLOOR),
                   what="curvature_matrix vs Tr^T Wr Tr + Ti^T Wi Ti + eps on unregularized (T = inversion's transformed matrix)")
         if f_got.shape == f1.shape:
-            ctx.close(f_got, f_got.T, "inversion/curvature_symmetry", atol=1e-12 * sf, what="curvature_matrix symmetry")
+            ctx.close(f_got, f_got.T, "inversion/curvature_symmetry", atol=1e-12 * (sf + FLOOR), what="curvature_matrix symmetry")
     # (2) end to end against the independent operator
     if transform_ok:
         d2, f2, sd, sf = dft.normal_equations(t_ref, vis, noise, noreg=noreg, eps=EPS)
-        ctx.close(d_got, d2, "inversion/data_vector/end-to-end", atol=1e-8 * sd, what="data_vector vs Gram products of A M")
-        ctx.close(f_got, f2, "inversion/curvature_matrix/end-to-end", atol=1e-8 * sf, what="curvature_matrix vs Gram products of A M")
+        ctx.close(d_got, d2, "inversion/data_vector/end-to-end", atol=1e-8 * (sd + FLOOR), what="data_vector vs Gram products of A M")
+        ctx.close(f_got, f2, "inversion/curvature_matrix/end-to-end", atol=1e-8 * (sf + FLOOR), what="curvature_matrix vs Gram products of A M")
     else:
         ctx.label("end-to-end-skipped:transform-mismatch")
 
 
 SUBCHECKS = [
     SubCheck("transform", body_transform, strategy=transform_case(),
-             examples={"quick": 1200, "thorough": 16000}, shards={"quick": 6, "thorough": 16}),
+             examples={"quick": 3000, "thorough": 24000}, shards={"quick": 6, "thorough": 16}),
     SubCheck("matrix", body_matrix, strategy=matrix_case(),
-             examples={"quick": 1000, "thorough": 12000}, shards={"quick": 5, "thorough": 16}),
+             examples={"quick": 2500, "thorough": 20000}, shards={"quick": 5, "thorough": 16}),
     SubCheck("inversion", body_inversion, strategy=inversion_case(),
-             examples={"quick": 800, "thorough": 8000}, shards={"quick": 5, "thorough": 16}),
+             examples={"quick": 2000, "thorough": 12000}, shards={"quick": 5, "thorough": 16}),
 ]
